@@ -40,19 +40,14 @@ func ValueOf(query *Query, current Map, any any) (any, error) {
 			if lazy, ok := rs.(CteEvaluation); ok {
 				return lazy()
 			}
-			// the back-reference itself read as a value (`<-` AS doc): the enclosing
-			// document is the map CTE results are written into, so a row holding it
-			// would end up inside a reference cycle. Hand out a copy, without the
-			// CTEs that have not been evaluated
-			if doc, ok := rs.(Map); ok && value == "<-" {
-				clone := make(Map, len(doc))
-				for key, entry := range doc {
-					// (the enclosing row of a nested select carries a marker of its own)
-					if _, ok := entry.(CteEvaluation); !ok && key != "<-" {
-						clone[key] = entry
-					}
-				}
-				return clone, nil
+			// the enclosing document read as a value - by the back-reference itself
+			// (`<-` AS doc), by more than one step (`<-<-`), through an alias of it
+			// (FROM `<-` AS p) or by a selector that denotes the whole row over dual:
+			// it is the map CTE results are written into, so a row holding it would
+			// end up inside a reference cycle. Hand out a copy, without the CTEs
+			// that have not been evaluated and without the marker of the level above
+			if doc, ok := rs.(Map); ok {
+				return unscoped(doc, value == "<-"), nil
 			}
 			return rs, nil
 		}
@@ -72,6 +67,30 @@ func ValueOf(query *Query, current Map, any any) (any, error) {
 			return value, nil
 		}
 	}
+}
+
+// unscoped returns a document without what only the engine may see in it: the
+// lazy CTEs stored in a scope and the `<-` marker of an enclosing row. A map
+// that holds neither is returned as it is, unless a copy is asked for
+func unscoped(doc Map, copy bool) Map {
+	plain := !copy
+	for key, entry := range doc {
+		if _, ok := entry.(CteEvaluation); ok || key == "<-" {
+			plain = false
+			break
+		}
+	}
+	if plain {
+		return doc
+	}
+	clone := make(Map, len(doc))
+	for key, entry := range doc {
+		// (the enclosing row of a nested select carries a marker of its own)
+		if _, ok := entry.(CteEvaluation); !ok && key != "<-" {
+			clone[key] = entry
+		}
+	}
+	return clone
 }
 
 func AsType[T any](value any) (*T, error) {
